@@ -31,6 +31,7 @@ import (
 	"mosn.io/mosn/pkg/metrics"
 	"mosn.io/mosn/pkg/protocol/xprotocol"
 	"mosn.io/mosn/pkg/protocol/xprotocol/bolt"
+	"mosn.io/pkg/buffer"
 	"verif/e2e"
 	"verif/vh"
 )
@@ -865,6 +866,24 @@ func runE2E(casesPath, tracePath string) {
 	vh.Must(err0, "trace file")
 	tr := &ftrace{f: tf}
 	flush := func() { tr.Close() }
+	// the shared IoBuffer pool reports a buffer that is given back more often than it was taken through its log
+	// function (mosn.io/pkg/buffer.SetLogFunc is public API): counted for the whole run, judged at the end
+	var poolMu sync.Mutex
+	poolDup, poolOther := 0, 0
+	poolFirst, lastPoison := "", ""
+	buffer.SetLogFunc(func(msg string) {
+		poolMu.Lock()
+		if strings.Contains(msg, "PutIoBuffer duplicate") {
+			if poolDup == 0 {
+				poolFirst = lastPoison
+			}
+			poolDup++
+		} else {
+			poolOther++
+		}
+		poolMu.Unlock()
+	})
+	notePoison := func(name string) { poolMu.Lock(); lastPoison = name; poolMu.Unlock() }
 
 	reg := e2e.NewRegistry()
 	good := e2e.NewHTTPUpstream("u1", reg)
@@ -1001,6 +1020,7 @@ func runE2E(casesPath, tracePath string) {
 			res, detail := "", ""
 			c.SetWriteDeadline(time.Now().Add(10 * time.Second))
 			if p.Side == "up" {
+				notePoison(p.Proto + "/" + p.Name)
 				tr.Emit(vh.Ev{"ev": "poison", "c": id, "proto": p.Proto, "name": p.Name, "class": p.Class, "side": p.Side})
 				if p.Proto == "bolt" {
 					beh := "garbage"
@@ -1063,6 +1083,7 @@ func runE2E(casesPath, tracePath string) {
 				if b == nil {
 					vh.Must(fmt.Errorf("poison %s/%s has no bytes", p.Proto, p.Name), "menu")
 				}
+				notePoison(p.Proto + "/" + p.Name)
 				tr.Emit(vh.Ev{"ev": "poison", "c": id, "proto": p.Proto, "name": p.Name, "class": p.Class, "side": p.Side, "bytes": clipHex(b, 48)})
 				c.Write(b)
 				if p.Proto == "http2" {
@@ -1270,6 +1291,10 @@ func runE2E(casesPath, tracePath string) {
 		where = spinning()
 	}
 	tr.Emit(vh.Ev{"ev": "cpu", "busy_ms": busy, "wall_ms": wall, "where": where})
+	time.Sleep(150 * time.Millisecond) // exception replies of the last poisons end on the worker pool
+	poolMu.Lock()
+	tr.Emit(vh.Ev{"ev": "pool", "dup": poolDup, "first_after": poolFirst, "other": poolOther})
+	poolMu.Unlock()
 	tr.Emit(vh.Ev{"ev": "alive"})
 	tr.Close()
 	fmt.Printf("e2e poisons=%d events=%d http2=%v\n", len(menu), tr.Len(), h2ok)
